@@ -40,7 +40,9 @@ int main(int argc, char** argv)
             if (sscanf(line, "%llx", &n) != 1) continue;
             m = ZSTD_COMPRESSBOUND((size_t)n);
             r = ZSTD_compressBound((size_t)n);
-            if (ZSTD_isError(r)) printf("B %llx %llx ERR\n", n, (unsigned long long)m);
+            /* ERR only for the documented failure; values just below ZSTD_MAX_INPUT_SIZE fall into the numeric range
+               of error codes (ZSTD_isError() is true for them) but are genuine bounds: printed as numbers */
+            if (r == (size_t)-ZSTD_error_srcSize_wrong && m == 0) printf("B %llx %llx ERR\n", n, (unsigned long long)m);
             else printf("B %llx %llx %llx\n", n, (unsigned long long)m, (unsigned long long)r);
         }
     } else if (!strcmp(mode, "margin")) {
